@@ -179,9 +179,15 @@ def run_exe(exe, args=(), flags=None, timeout=60, env=None, cwd=None):
     try:
         p = subprocess.run([exe] + [str(a) for a in args], stdout=subprocess.PIPE, stderr=subprocess.PIPE,
                            timeout=timeout, env=e, cwd=cwd)
-    except subprocess.TimeoutExpired as ex:
-        return {"out": (ex.stdout or b"").decode("utf-8", "replace"), "err": (ex.stderr or b"").decode("utf-8", "replace"),
-                "code": None, "signal": None, "timeout": True}
+    except subprocess.TimeoutExpired:
+        # wall-clock limits say little on a loaded machine: a run only counts as not terminating when it also
+        # exceeds five times the limit on a second attempt
+        try:
+            p = subprocess.run([exe] + [str(a) for a in args], stdout=subprocess.PIPE, stderr=subprocess.PIPE,
+                               timeout=timeout * 5, env=e, cwd=cwd)
+        except subprocess.TimeoutExpired as ex:
+            return {"out": (ex.stdout or b"").decode("utf-8", "replace"), "err": (ex.stderr or b"").decode("utf-8", "replace"),
+                    "code": None, "signal": None, "timeout": True}
     sig = -p.returncode if p.returncode < 0 else None
     return {"out": p.stdout.decode("utf-8", "replace"), "err": p.stderr.decode("utf-8", "replace"),
             "code": p.returncode if p.returncode >= 0 else None, "signal": sig, "timeout": False}
